@@ -176,8 +176,92 @@ def file_level(c, active):
         return a == b
 
 
+SAME_SRC = "top: int = 1\n\n\nclass K(object):\n    a: int = 2\n    b: str = 'x'\n\n    def m(self, c: float, d: bool = True):\n        return c\n\n    def n(self, e: int, f: str):\n        return e\n"
+SAME_PAIRS = [("top", "K.b"), ("K.m.c", "K.n.e"), ("K.a", "top"), ("K.n.f", "K.m.c"), ("K.b", "top"), ("top", "K.a")]  # like replaces like; no name collisions
+
+
+def same_file(pi, wrap, npairs):
+    """input file and output file are the SAME file: the addressed location takes the input's property, the input location itself
+    and every other node keep their tree"""
+    pi, wrap, npairs = realize((pi, wrap, npairs))
+    with untraced():
+        pairs = [SAME_PAIRS[(pi + k) % len(SAME_PAIRS)] for k in range(npairs)]
+        if len({o for _, o in pairs}) < len(pairs) or any(i == o2 for i, _ in pairs for _, o2 in pairs):
+            return True  # a location that is both read and overwritten in one call: order-dependent, outside the claim
+        fs = FS({"/p/m.py": SAME_SRC})
+        undo = install(fs, *MODS)
+        try:
+            doctrans.sync_properties.sync_properties(False, "/p/m.py", [i for i, _ in pairs], "/p/m.py", [o for _, o in pairs], WRAP if wrap else None)
+        finally:
+            undo()
+        after, before = ast.parse(fs.files["/p/m.py"]), ast.parse(SAME_SRC)
+        for ip, op in pairs:
+            src = resolve(ip.split("."), before)[0]
+            hit = resolve(op.split(".")[:-1] + [ip.split(".")[-1]], after)
+            if not hit:
+                return False
+            if not wrap and ast.dump(hit[0].annotation) != ast.dump(src.annotation):
+                return False
+            # the input location itself is untouched
+            still = [h for h in resolve(ip.split("."), after) if h is not hit[0]] or resolve(ip.split("."), after)
+            if not still or ast.dump(still[0].annotation) != ast.dump(src.annotation):
+                return False
+        # every node that is neither addressed nor the replacement: unchanged
+        def mask(tree, locs):
+            for segs in locs:
+                for h in resolve(segs, tree)[:1]:
+                    if isinstance(h, ast.arg):
+                        h.arg, h.annotation = "<masked>", None
+                    else:
+                        h.target, h.annotation, h.value = ast.Name("<masked>", ast.Store()), ast.Name("m", ast.Load()), None
+            return ast.dump(tree)
+        a = mask(after, [op.split(".")[:-1] + [ip.split(".")[-1]] for ip, op in pairs])
+        b = mask(before, [op.split(".") for _, op in pairs])
+        return a == b
+
+
+EVAL_SRC2 = "import math\n\nx = ('np', 'tf', 'jax')\ny = (2, 1)\nz = ('b',)\n"
+EVAL_VALUES2 = {"x": ("np", "tf", "jax"), "y": (2, 1), "z": ("b",)}
+
+
+def eval_twice(o, first):
+    """eval mode, two calls in one process on the SAME input path whose content changed in between: the second Literal holds the
+    values of the file as it is then"""
+    o, first = realize((o, first))
+    with untraced():
+        name = ("x", "y", "z")[first]
+        outp = OUT_PATHS[o][first % 3]
+        if _arg_with_default(OUT_SRC[o], outp):
+            return True  # KF-C14-eval-arg-default-crash region
+        for src, vals in ((EVAL_SRC, EVAL_VALUES), (EVAL_SRC2, EVAL_VALUES2)):
+            fs = FS({"/p/in.py": src, "/p/out.py": OUT_SRC[o]})
+            undo = install(fs, *MODS)
+            try:
+                doctrans.sync_properties.sync_properties(True, "/p/in.py", [name], "/p/out.py", [outp], None)
+            finally:
+                undo()
+            hit = resolve(outp.split("."), ast.parse(fs.files["/p/out.py"]))
+            if not hit:
+                return False
+            ann = hit[0].annotation
+            if not (isinstance(ann, ast.Subscript) and getattr(ann.value, "id", "") == "Literal"):
+                return False
+            elts = ann.slice.elts if isinstance(ann.slice, ast.Tuple) else [ann.slice]
+            got = [e.value for e in elts if isinstance(e, ast.Constant)]
+            if got != list(vals[name]) or [type(g) for g in got] != [type(v) for v in vals[name]]:
+                return False
+        return True
+
+
 def obligations(tier, seed):
     obs = []
+    obs.append(Ob(name="same_file", params=[("pi", "int"), ("wrap", "int"), ("n", "int")], pre=["0 <= pi < %d" % len(SAME_PAIRS), "0 <= wrap <= 1", "1 <= n <= 2"],
+                  body="H.same_file(pi, wrap, n)", witness=(0, 1, 1), kind="F",
+                  bounds="input file == output file; %d (input, output) location pairs (attribute -> attribute, argument -> argument), 1..2 pairs per "
+                  "call, wrap template on/off" % len(SAME_PAIRS), timeout=200, funcs=FUNCS))
+    obs.append(Ob(name="eval_twice", params=[("o", "int"), ("f", "int")], pre=["0 <= o <= 2", "0 <= f <= 2"], body="H.eval_twice(o, f)", witness=(0, 0),
+                  kind="F", bounds="eval mode called twice in one process on the same input path with changed values in between; 3 output modules x 3 "
+                  "input names", timeout=200, funcs=FUNCS))
     for sid0, (skel, k) in OUT_SKELS.items():
         sid = "c14_" + sid0
         for L in (1, 2, 3):
